@@ -57,3 +57,20 @@ func TestDumpSeq(t *testing.T) {
 	}
 	_ = os.WriteFile(out, last.EventLog, 0o644)
 }
+
+// TestBigReg runs C15 seeds with the beyond-the-export-cap registration forced on (debug aid).
+func TestBigReg(t *testing.T) {
+	if os.Getenv("SIM_BIGREG") == "" {
+		t.Skip()
+	}
+	for i := int64(0); i < envInt("SIM_N", 2); i++ {
+		seed := runSeed(1, "C15", 77, i)
+		tr, g := NewRun("C15", seed, "quick")
+		tr.Knobs.BigReg = &BigReg{Kind: []string{"wrk", "bcn"}[i%2], N: ExportCap + 3}
+		if tr.Knobs.StartWrk < 2 {
+			tr.Knobs.StartWrk, tr.Knobs.StartBeacon = 2, 2
+		}
+		res := Execute(t, tr, g, "C15", true)
+		fmt.Println("BIGREG", seed, res.Blocks, res.WallMs, res.Probes, res.Violations)
+	}
+}
